@@ -607,8 +607,8 @@ func (e *Exec) typeAssert(in *ssa.TypeAssert, x iface) value {
 	var v value
 	if it, isI := in.AssertedType.Underlying().(*types.Interface); isI {
 		if x.t != nil {
-			if _, nat := x.v.(nativeObj); nat {
-				ok = true
+			if no, nat := x.v.(nativeObj); nat {
+				ok = nativeImplements(no, it)
 			} else {
 				ok = types.Implements(x.t, it)
 			}
